@@ -77,6 +77,15 @@ def extinction_cases(tier, seed0):
                     yield {"sub": "extinction", "engine": engine,
                            "script": {"system": spec, "t_sample": [0], "time_step": 0.25, "seed": sd, "isp": "auto",
                                       "policy": "on_iteration", "t_max": 1e6 if engine == "gillespie" else 1.0}}
+                    # every sampling policy, with the requested times used up long before the explicit t_max and with
+                    # requests still pending when nothing can happen any more
+                    for pol, ts, extra in (("on_t_sample", [0, 0.01], {}), ("on_t_sample", [0, 0.01, 500.0], {}),
+                                           ("on_t_sample", [0], {}), ("on_interval", [0], {"interval": 0.5}),
+                                           ("no_sampling", [0], {})):
+                        sc = {"system": spec, "t_sample": ts, "time_step": 0.25, "seed": sd, "isp": "auto", "policy": pol,
+                              "t_max": 1000.0 if engine == "gillespie" else 1.0}
+                        sc.update(extra)
+                        yield {"sub": "extinction", "engine": engine, "script": sc}
 
 
 def step_cases():
@@ -238,7 +247,7 @@ def build_jobs(tier, seed0, d1=None, d2=None, two=True):
                  "{grid,graph} x seed window", len(tc), len(tc)))
     exc = list(extinction_cases(tier, seed0))
     jobs += [("simple", c) for c in exc]
-    subs.append(("extinction catalogue: stochastic runs ending by zero total propensity (4 states x 2 engines x {grid,graph} x seeds), "
+    subs.append(("extinction catalogue: stochastic runs ending by zero total propensity (4 states x 2 engines x {grid,graph} x seeds x 6 sampling set-ups incl. requests used up before an explicit t_max / still pending), "
                  "then iterate / iterate_n(0) / iterate_n(2) / run(0) on the completed simulation", len(exc), len(exc)))
     # model-based part: every path of TLC's state graph of spec/Lifecycle.tla is replayed on the implementation
     try:
